@@ -492,6 +492,20 @@ fn rejected_calls(cfg: &Cfg, rng: &mut Rng) {
         }
         let c = crate::c01::FeCfg { need_reply: ci % 2 == 0, reply_ack: true, log_shmfd: true };
         let (mut f, peer) = crate::c01::setup_frontend(c, maxq);
+        // every third index probe comes after a GET_QUEUE_NUM whose answer the frontend must refuse (more
+        // queues than the protocol allows): the refused answer must not become the known maximum
+        if class.starts_with("queue-index-beyond-max") && ci % 3 == 0 {
+            let bogus = [0x8001u64, 0x1_0000, u64::MAX][(ci / 3) % 3];
+            crate::c01::preload(&peer, spec::fe::GET_QUEUE_NUM, &spec::p_u64(bogus), None);
+            let r = f.get_queue_num();
+            let mut d = sys::drain_nb(peer.as_raw_fd());
+            d.close_fds();
+            if r.is_ok() {
+                report::observe("get_queue_num:over-limit-answer-accepted", J::x64(bogus));
+                continue;
+            }
+            report::count("rejected.after-refused-queue-num", 1);
+        }
         let mut lent = Lent::default();
         // negative mmap handle is a separate class below
         // (bounded: a call that is wrongly sent may then wait for an ack the raw peer never writes)
